@@ -98,6 +98,13 @@ func parseSCPSSH(raw string, kind Kind) (*URL, error) {
 		}
 	}
 
+	// Reject usernames that begin with a dash, because they would be
+	// interpreted as command line options by ssh and scp (OpenSSH itself
+	// refuses such names).
+	if strings.HasPrefix(username, "-") {
+		return nil, errors.New("username begins with '-'")
+	}
+
 	// Parse off the host. Again, ideally we'd want to be a bit more stringent
 	// here about what characters we accept in hostnames, potentially breaking
 	// early with an error if we see a "disallowed" character, but we're better
@@ -119,6 +126,8 @@ func parseSCPSSH(raw string, kind Kind) (*URL, error) {
 	}
 	if hostname == "" {
 		return nil, errors.New("no hostname present")
+	} else if strings.HasPrefix(hostname, "-") {
+		return nil, errors.New("hostname begins with '-'")
 	}
 
 	// Parse off the port. This is not a standard SCP URL syntax (and even Git
